@@ -137,10 +137,13 @@ def cl_enc_oracle(case, impl):
     if len(groups) != len(steps) + 2:
         return None     # not one group per step (harness-panic etc. is caught by the model diff)
     tx = 0
+    armed = False       # `W` / `Wi`: the transport fails the next write
     for st, g in zip(steps, groups):
         if st[0] not in "RCTQ":
             if any(e.startswith("tx.") for e in g.split(";")):
                 return "a frame was transmitted in a step that submits nothing: " + st
+            if st[0] == "W":
+                armed = True
             continue
         d = _parse_cl_request(st)
         frames = [e[3:] for e in g.split(";") if e.startswith("tx.")]
@@ -158,6 +161,16 @@ def cl_enc_oracle(case, impl):
                 tx = (tx + 1) % 65536
             continue
         pdu = _protocol_pdu(d)
+        if armed:
+            # the transport refuses the write: nothing reaches the wire (in particular no second
+            # attempt), the request fails with the transport's error; its transaction id is used up
+            armed = False
+            if frames:
+                return f"request {st}: the transport failed the write but {frames} was transmitted"
+            if not any(e.startswith(f"done.{d['rid']}.io.") for e in g.split(";")):
+                return f"request {st}: write failed but the request did not complete with the transport error"
+            tx = (tx + 1) % 65536
+            continue
         expect = gen.rtu(d["unit"], pdu) if rtu_mode else gen.mbap(tx, d["unit"], pdu)
         if frames != [expect.hex()]:
             return f"request {st}: transmitted {frames} instead of [{expect.hex()}]"
@@ -331,7 +344,7 @@ PROPS = {
         audit_modules=["RodbusModel.Audit.C05", "RodbusModel.Audit.C05Client"],
         required_theorems=["Rodbus.Client.rx_chunking_mbap", "Rodbus.Client.rx_chunking_rtu", "Rodbus.chunking_independent", "Rodbus.no_spurious_eof",
                            "Rodbus.bad_header_ends_session", "Rodbus.frames_roundtrip",
-                           "Rodbus.no_loss_no_reread", "Rodbus.read_has_space"],
+                           "Rodbus.no_loss_no_reread", "Rodbus.read_has_space", "Rodbus.Cancel.cancel_safe_mbap", "Rodbus.Cancel.session_cancel_safe"],
         suites=[dict(gen="rdr_mbap", n=(3000, 60000),
                      exhaustive="all chunk compositions of 5 short streams (<=10 bytes quick, <=12 thorough); "
                                 "header length fields 0..599 (+3) x protocol id {0,1} quick, all 65536 thorough; "
@@ -497,7 +510,7 @@ PROPS = {
         audit_modules=["RodbusModel.Audit.C02"],
         required_theorems=["Rodbus.C02.session_calls_justified", "Rodbus.C02.framing_error_ends_session", "Rodbus.C02.calls_justified", "Rodbus.C02.write_once", "Rodbus.C02.write_once_broadcast",
                            "Rodbus.C02.reads_ascending_prefix", "Rodbus.C02.invalid_no_effect", "Rodbus.C02.reads_no_state_change_lookup",
-                           "Rodbus.C01W.write_failure_calls_justified", "Rodbus.C01W.write_failure_prefix"],
+                           "Rodbus.C01W.write_failure_calls_justified", "Rodbus.C01W.write_failure_prefix", "Rodbus.Cancel.session_cancel_safe"],
         suites=[dict(gen="srv_wfail", n=(300, 30000)), dict(gen="srv_edge", n=(1, 1), exhaustive="k = 1..11 pipelined requests + a long write whose first delivery ends at offset 259/260/261 of the receive buffer, a ChangeDecoding command cancelling the pending read, then the rest; handler mutex held by an application thread while a unicast / broadcast write arrives"), dict(gen="srv_tcp", n=(2500, 150000)), dict(gen="srv_rtu", n=(1500, 100000)), dict(gen="srv_auth", n=(1500, 100000))],
         level_text="Proof: calls_justified (every handler call of handle_frame is justified by a valid, in-limit, permitted request addressed to that "
                    "unit or broadcast, and is either exactly the decoded write or a read inside the requested range), write_once / "
@@ -620,8 +633,8 @@ PROPS = {
         required_theorems=["Rodbus.C20.decode_noninterference_server", "Rodbus.C20.level_change_transparent_server",
                            "Rodbus.C20.level_changes_transparent_server", "Rodbus.Client.decode_noninterference_client",
                            "Rodbus.Client.level_change_content_irrelevant", "Rodbus.Client.level_change_is_a_queued_command",
-                           "Rodbus.Client.level_change_transparent_client_partial"],
-        suites=[dict(gen="dec_srv", n=(150, 6000)), dict(gen="dec_rdr", n=(150, 6000)), dict(gen="dec_cl", n=(200, 8000)), dict(gen="net", n=(6, 200), jobs=16)],
+                           "Rodbus.Client.level_change_transparent_client_partial", "Rodbus.Cancel.session_cancel_safe"],
+        suites=[dict(gen="srv_edge", n=(1, 1), exhaustive="a ChangeDecoding command cancelling the pending read right after a compaction of the receive buffer (first delivery ends at offset 259/260/261), k = 1..11 pipelined requests, both framings"), dict(gen="dec_srv", n=(150, 6000)), dict(gen="dec_rdr", n=(150, 6000)), dict(gen="dec_cl", n=(200, 8000)), dict(gen="net", n=(6, 200), jobs=16)],
         level_text="Proof: decode_noninterference_server (the session model's bytes, application calls, final states and end kind do not depend on "
                    "the decode level: the level only selects log lines), level_change_transparent_server / level_changes_transparent_server (a "
                    "ChangeDecoding command inserted at any position - also in the middle of a partially received frame - changes nothing; no buffered "
